@@ -16,6 +16,8 @@ ENTANGLE = ['numqi.entangle.ppt', 'numqi.entangle._misc', 'numqi.entangle.eof', 
 def c05(proj, rep, tier):
     n = numeric.t1(proj, rep, DECISION_C05)
     rep.floor('T1 decision comparisons + PSD shift sites (C05)', n, 10)
+    n = numeric.t2(proj, rep, DECISION_C05)
+    rep.floor('T2 tolerance-direction sites (C05)', n, 6)
     n = kdefects.k1(proj, rep, ENTANGLE)
     rep.floor('K1 int()/float() casts of names in entangle criteria', n, 8)
     n = numeric.f1(proj, rep, ['numqi.entangle.eof', 'numqi.entangle.measure', 'numqi.entangle._misc', 'numqi.utils'])
@@ -92,6 +94,8 @@ def c03(proj, rep, tier):
     rep.floor('D1 dispatch obligations', n, 17)
     n = circuit.u1(proj, rep)
     rep.floor('U1 to_unitary', n, 1)
+    n = ownership.o2(proj, rep)
+    rep.floor('O2 cached functions examined', n, 20)
     rep.assume("the kind 'kraus' has no dispatch arm by the source's own `# TODO kraus` (circuit.py): recorded but not claimed")
     rep.assume('the einsum relabelling inside state.apply_gate / _control_n_index / dm.apply_gate is built from computed index '
                'lists and is value-level: not decided')
@@ -124,6 +128,8 @@ def c19(proj, rep, tier):
     n = adjoint.a_kl(proj, rep)
     rep.floor('A Knill-Laflamme backward obligations', n, 5)
     adjoint.a4_a5(proj, rep, only={'numqi.qec._internal._KnillLaflammeInnerProductTorchOp'})
+    n = ownership.o2(proj, rep)
+    rep.floor('O2 cached functions examined', n, 20)
     rep.assume('Q4 assumes the simulator applies each recorded gate as the operator of its registry entry (subject of C03)')
     rep.assume('asymmetric error sets and weight-enumerator sum rules are value-level: not decided')
 
@@ -132,6 +138,8 @@ def c10(proj, rep, tier):
     nfun, tot = seed.run(proj, rep, None)
     n = seed.s5(proj, rep, None)
     rep.floor('S5 bounded index / radix draws', n, 4)
+    n = seed.s6(proj, rep, None)
+    rep.floor('S6 functions with a seed parameter', n, 40)
     rep.floor('seed-accepting functions', nfun, 50)
     rep.floor('S2 nested seeded call sites', tot['S2'], 70)
     rep.floor('S4 generator draws', tot['S4'], 40)
@@ -144,6 +152,11 @@ def c11(proj, rep, tier):
     n = kdefects.n1(proj, rep, ['numqi.sim.state', 'numqi.sim.circuit', 'numqi.sim.dm'])
     nfun, tot = seed.run(proj, rep, ['numqi.sim.state', 'numqi.sim.circuit'])
     rep.floor('seed-accepting functions in sim.state/sim.circuit', nfun, 4)
+    canon = adjoint.canonical_kinds(proj)
+    n = adjoint.shift_arms(proj, rep, canon)
+    rep.floor('D3 shift arms (measure bookkeeping)', n, 3)
+    n = circuit.d4(proj, rep)
+    rep.floor('D4 MeasureGate role obligations', n, 3)
 
 
 def c18(proj, rep, tier):
@@ -157,6 +170,8 @@ def c18(proj, rep, tier):
 def c20(proj, rep, tier):
     n = numeric.t1(proj, rep, DECISION_C20)
     rep.floor('T1 decision comparisons (C20)', n, 4)
+    n = numeric.t2(proj, rep, DECISION_C20)
+    rep.floor('T2 tolerance-direction sites (C20)', n, 3)
     nsite, ntyped = gellmann.g2(proj, rep, ['numqi.matrix_space._misc'])
     rep.floor('G2 projected synthesis sites in matrix_space._misc', ntyped, 2)
     n = gellmann.g3(proj, rep, ['numqi.matrix_space._misc.get_matrix_orthogonal_basis',
